@@ -123,7 +123,8 @@ const (
 	VerifH3SErrGoawayLen
 	VerifH3SErrUnexpectedEOF
 	VerifH3SErrTrailerTooLarge
-	VerifH3SErrOther = 99
+	VerifH3SErrTruncated // errFrameTruncated of the frame parser: wraps io.EOF without being io.EOF
+	VerifH3SErrOther     = 99
 )
 
 var verifH3STrailerTooLarge = errors.New("verif: trailer HEADERS frame too large")
@@ -147,6 +148,8 @@ func VerifH3SErrClass(err error) (int64, int64) {
 		return VerifH3SErrEOF, 0
 	case err == io.ErrUnexpectedEOF:
 		return VerifH3SErrUnexpectedEOF, 0
+	case errors.Is(err, io.EOF):
+		return VerifH3SErrTruncated, 0
 	case err == errTooMuchData:
 		return VerifH3SErrTooMuchData, 0
 	case err == verifH3STrailerTooLarge:
